@@ -74,7 +74,10 @@ func NewConstInt[T constraints.Signed](val T, w Width) Const {
 		val >>= 8
 	}
 
-	if val != 0 && (val != -1 || bs[len(bs)-1] < 128) {
+	// The remaining (sign) bits of val must agree with the sign bit of the
+	// encoded value, otherwise the encoding has a different sign than val.
+	signBit := len(bs) > 0 && bs[len(bs)-1] >= 128
+	if !(val == 0 && !signBit) && !(val == -1 && signBit) {
 		panic(fmt.Sprintf("value of type %T doesn't fit to value of width %d: %d",
 			val, w, valCopy))
 	}
